@@ -50,7 +50,10 @@ from guppylang_internals.tys.ty import NoneType, UnitaryFlags
 
 # In order to build expressions, need an endless stream of unique temporary variables
 # to store intermediate results
-tmp_vars: Iterator[str] = (f"%tmp{i}" for i in itertools.count())
+# The counter is zero-padded so that the lexicographic order of the names agrees with the
+# order in which they were generated, however far the session-wide counter has advanced.
+# (Variables are sorted by name when block signatures are computed.)
+tmp_vars: Iterator[str] = (f"%tmp{i:08}" for i in itertools.count())
 
 
 def is_tmp_var(x: str) -> bool:
